@@ -378,6 +378,7 @@ class SearchRun:
         self.pre_havoc = []
         self.v_range = v_range
         self.fn_path = None
+        self.inner_domain = []
 
     def hook(self, it, st, fr, cfg, head):
         if not fr.fn['path'].startswith('synth_utils::quantizer::') or (self.fn_path is not None and fr.fn['path'] != self.fn_path):
@@ -423,6 +424,22 @@ class SearchRun:
                     if key not in seen_terms:
                         seen_terms.add(key)
                         self.vec_terms.append((key, st.ctx.copy()))
+        if depth == 1 and not self.inner_domain:
+            # iteration domain of the inner scan: a Range with constant bounds, or a counted loop from a constant
+            for l, cell in fr.locals.items():
+                v = st.cells.get(cell)
+                if isinstance(v, StructV) and v.path.endswith('ops::range::Range') and isinstance(v.get('start'), Num):
+                    a_, b_ = v.get('start').term.const_value(), v.get('end').term.const_value()
+                    if a_ is not None and b_ is not None:
+                        self.inner_domain.append((int(a_), int(b_)))
+            if not self.inner_domain:
+                from .panic import counted_loop
+                det = counted_loop(fr.fn, cfg.loops[head], details=True)
+                if det:
+                    cl, bound, op = det
+                    v0 = st.cells.get(fr.locals.get(cl))
+                    if isinstance(v0, Num) and v0.term.const_value() is not None and bound is not None and op in ('Lt',):
+                        self.inner_domain.append((int(v0.term.const_value()), bound))
         saved = {l: copy.deepcopy(st.cells[fr.locals[l]]) for l in self.acc_locals}
         # plain havoc: the ranges of the loop symbols come from the iterator models, the accumulators from A/B below
         it.apply_havoc(st, fr, head, it.loop_places(st, fr, cfg, head))
@@ -527,6 +544,9 @@ def check_search(res, facts, prop):
                     desc += '; ascending=%s, k in list=%s, k-1 searched=%s (k>=1 is %s), k+1 searched=%s (k<MAX is %s)' % (asc, has_k, below, need_below, above, need_above)
                 res.ob('R-SEARCHORDER', 'octave list %d' % orders_seen, ok, desc + ' — the early exits of the scan need ascending candidates over exactly the octaves k-1, k, k+1 that exist', where,
                        key='R-SEARCHORDER:%d' % orders_seen)
+        if modes == ('A', 'A') and prop == 'C08':
+            res.ob('R-SEARCHORDER', 'inner scan visits the pitch classes 0..12 in ascending order', set(run.inner_domain) == {(0, 12)},
+                   'iteration domain of the inner loop: %s (expected a range / counted loop from 0 up to 12)' % (run.inner_domain,), where, key='R-SEARCHORDER:inner')
         # (ii) returns and back edges
         for o in sem_iter(outs, include_loopback=True):
             if o.status == 'returned':
